@@ -149,9 +149,11 @@ where
 
     if let Some(compression_method) = compression_method {
         if compression_method == CompressionMethod::Bgzf {
-            let mut decoder = MultiGzDecoder::new(src);
-            let mut buf = [0; BCF_MAGIC_NUMBER.len()];
-            decoder.read_exact(&mut buf)?;
+            let decoder = MultiGzDecoder::new(src);
+            let mut buf = Vec::with_capacity(BCF_MAGIC_NUMBER.len());
+            decoder
+                .take(BCF_MAGIC_NUMBER.len() as u64)
+                .read_to_end(&mut buf)?;
 
             if buf == BCF_MAGIC_NUMBER {
                 return Ok(Format::Bcf);
